@@ -1359,18 +1359,17 @@ def _str_parse(M, fr, n, a):
             digs.append(b - 48)
         else:
             if not M.branch(z3.And(z3.UGE(b, 48), z3.ULE(b, 57))): return E()
-            digs.append(z3.ZeroExt(w + 8 - 8, b - 48))
+            digs.append(b - 48)
     if all(isinstance(d, int) for d in digs):
         v = int(''.join(str(d) for d in digs)); v = -v if neg else v
         lo = -(1 << (w - 1)) if sg else 0; hi = (1 << (w - 1)) - 1 if sg else (1 << w) - 1
         return ok(v) if lo <= v <= hi else E()
-    W = w + 8
-    acc = z3.BitVecVal(0, W); ovf = z3.BoolVal(False)
+    W = max(w + 8, 4 * len(digs) + 8)          # wide enough for any digit string of this length: no wrap in the accumulator
+    acc = z3.BitVecVal(0, W)
     lim = (1 << (w - 1)) - 1 if sg else (1 << w) - 1
-    # accumulate in a wider word; a value beyond the type limit at any prefix is an overflow (monotone)
-    if len(digs) * 4 > W - 8: raise Unsupported('digit string too long for the parse model')
     for d in digs:
-        acc = acc * 10 + (z3.BitVecVal(d, W) if isinstance(d, int) else d)
+        dd = z3.BitVecVal(d, W) if isinstance(d, int) else (z3.ZeroExt(W - d.size(), d) if d.size() < W else d)
+        acc = acc * 10 + dd
     over = z3.UGT(acc, z3.BitVecVal(lim + (1 if (sg and neg) else 0), W))
     if M.branch(over): return E()
     v = z3.Extract(w - 1, 0, acc)
